@@ -813,6 +813,12 @@ func (ex *Exec) execTypeSwitch(s *ast.TypeSwitchStmt) {
 				}
 			}
 			ex.execBlock(cl.Body)
+			if bind != nil {
+				// the clause's variable goes out of scope (the clauses' variables share name and position)
+				if obj, ok := ex.info().Implicits[cl].(*types.Var); ok {
+					delete(ex.st.env, ex.keyOf(obj))
+				}
+			}
 		})
 		outs = append(outs, out)
 		notPrev = And(notPrev, Not(cond))
@@ -825,6 +831,11 @@ func (ex *Exec) execTypeSwitch(s *ast.TypeSwitchStmt) {
 				}
 			}
 			ex.execBlock(defaultClause.Body)
+			if bind != nil {
+				if obj, ok := ex.info().Implicits[defaultClause].(*types.Var); ok {
+					delete(ex.st.env, ex.keyOf(obj))
+				}
+			}
 		}
 	})
 	outs = append(outs, out)
